@@ -4,6 +4,7 @@ import (
 	"fmt"
 	"os"
 	"path/filepath"
+	"strconv"
 	"strings"
 	"testing"
 	"time"
@@ -105,7 +106,7 @@ func genExprCase(t *rapid.T) Case {
 	return c
 }
 
-var smallExprs = []string{".", "..", "...", ".[]", ".a", ".[0]", "sort", "sort_keys(..)", "to_entries", "keys", "length", ".. style=\"flow\"", "explode(.)", "[..]", "{\"a\": .}", ". as $x | $x", "map(.)", ".[] |= .", "del(.[0])", ". * .", ". + .", "[.[] | key]", "with_entries(.)", "(.. | select(tag == \"!!str\")) |= . + \"x\"", "... comments=\"\"", "path", "to_yaml", "to_json", "to_xml", "to_props", "@csv", "flatten", "unique", "group_by(.)", "reverse", "min", "any", "[paths]"}
+var smallExprs = []string{".", "..", "...", ".[]", ".a", ".[0]", "sort", "sort_keys(..)", "to_entries", "keys", "length", ".. style=\"flow\"", "explode(.)", "[..]", "{\"a\": .}", ". as $x | $x", "map(.)", ".[] |= .", "del(.[0])", ". * .", ". + .", "[.[] | key]", "with_entries(.)", "(.. | select(tag == \"!!str\")) |= . + \"x\"", "... comments=\"\"", "path", "to_yaml", "to_json", "to_xml", "to_props", "@csv", "flatten", "unique", "group_by(.)", "reverse", "min", "any", "[paths]", "eval(.a)", "eval(.[])", ".. |= eval(.)", ". tag=\"!!map\"", ". tag=\"!!seq\"", ".. tag=\"!!str\"", ".. tag=\"!!map\"", ".[] tag=\"!!int\"", ". - .", ". == .", "unique_by(.)", ". - [.[0]]"}
 
 func genInputCase(t *rapid.T) Case {
 	f := rapid.SampledFrom(inFormats).Draw(t, "in")
@@ -117,6 +118,26 @@ func genInputCase(t *rapid.T) Case {
 		txt = rapid.SampledFrom([]string{"</a>", "</b><!--c-->", "<<: *x", "*x", "&x", "]]", "\x00", "\xef\xbb\xbf", strings.Repeat("[", 3000), strings.Repeat("{\"a\":", 3000), strings.Repeat("<a>", 2000), "--- \n--- \n", "a: &a [*a]", "? ", "\r\n\r\n"}).Draw(t, "hs")
 	}
 	c := Case{Expr: rapid.SampledFrom(smallExprs).Draw(t, "expr"), Input: txt, In: f, Gen: "input"}
+	if rapid.IntRange(0, 24).Draw(t, "selfk") == 0 {
+		// data that holds expressions, evaluated by eval: among them the evaluating expression itself
+		c.Expr = rapid.SampledFrom([]string{"eval(.a)", "eval(.[])", ".[] |= eval(.)", "eval(.b) | eval(.a)", ".a |= eval(.)", "eval(eval(.a))"}).Draw(t, "evx")
+		// generator bound: next to an expression that evals itself no held expression fans out into
+		// several nodes (.., .[]): each level of the recursion would multiply the work, which is a
+		// request for exponential output, not a defect
+		self := rapid.IntRange(0, 3).Draw(t, "selfref")
+		held := func(l string, i int) string {
+			if self == i || self == 2 {
+				return c.Expr
+			}
+			if self == 0 || self == 1 {
+				return rapid.SampledFrom([]string{".", ".a", ".b", "length", "keys", "to_entries", ". as $x | $x", "[..]", "\"x\"", "eval(.b)", "eval(.a)", ". tag=\"!!map\""}).Draw(t, l)
+			}
+			return rapid.SampledFrom(smallExprs).Draw(t, l)
+		}
+		c.In = "json"
+		c.Input = "{\"a\": " + strconv.Quote(held("ha", 0)) + ", \"b\": " + strconv.Quote(held("hb", 1)) + "}"
+		f = "json"
+	}
 	if rapid.Bool().Draw(t, "same") {
 		c.Out = f
 		if f == "base64" || f == "uri" {
